@@ -17,11 +17,12 @@ theorem opsOK_all (n : Nat) (hco : 0 < co.maxInlineDepth) (ihE : ElemsOK o co n)
   | .str, _, _ => opsOK_str (n + 1)
   | .f32, _, _ => opsOK_f32 (n + 1)
   | .f64, _, _ => opsOK_f64 (n + 1)
+  | .any, _, _ => opsOK_any (n + 1)
   | .sl t, hs, _ => opsOK_sl n ihE t hs
   | .arr N t, hs, _ => opsOK_arr n ihA N t hs
   | .st fs, hs, _ => opsOK_st n hco ihS fs hs
   | .ptr _, _, hp => by simp [notPtr] at hp
-  | .num, h, _ | .bytes, h, _ | .raw, h, _ | .any, h, _ | .map _ _, h, _ | .lib _, h, _ => by simp [Sub] at h
+  | .num, h, _ | .bytes, h, _ | .raw, h, _ | .map _ _, h, _ | .lib _, h, _ => by simp [Sub] at h
 
 theorem opsOK_zero (B : GoType) : OpsOK o co 0 B := by
   intro s cur v e r _ _ h
@@ -202,6 +203,31 @@ theorem exec_ok_of {o : DecOpts} {co : COpts} {lim : Option Nat} {P : Program} {
     cases r with
     | error x => rw [hq] at h; cases h
     | ok v => rw [hq] at h; exact ⟨v, exec_eq_of_fuel hq, h⟩
+
+theorem exec_err_of {o : DecOpts} {co : COpts} {lim : Option Nat} {P : Program} {s : Bytes} {dest : GoVal} {n : Nat} (x : XErr)
+    (h : (match execFuel n o co lim P s dest with
+      | some (.error y) => y == x
+      | _ => false) = true) : exec o co lim P s dest = .error x := by
+  cases hq : execFuel n o co lim P s dest with
+  | none => rw [hq] at h; cases h
+  | some r =>
+    rw [hq] at h
+    cases r with
+    | ok v => cases h
+    | error y =>
+      have : y = x := by simpa using h
+      rw [exec_eq_of_fuel hq, this]
+
+theorem stream_err_of {o : DecOpts} {T : GoType} {s : Bytes} (e : DErr)
+    (h : (match Stream.decode o T s with
+      | .error y => y == e
+      | _ => false) = true) : Stream.decode o T s = .error e := by
+  cases hq : Stream.decode o T s with
+  | ok v => rw [hq] at h; cases h
+  | error y =>
+    rw [hq] at h
+    have : y = e := by simpa using h
+    rw [this]
 
 theorem stream_ok_of {o : DecOpts} {T : GoType} {s : Bytes} (p : GoVal → Bool)
     (h : (match Stream.decode o T s with
